@@ -142,7 +142,11 @@ def episode(ctx, case, nsteps=0):
     steps = case['steps']
     rng = ctx.rng
     with util.options(lsb0=False, bytealigned=False):
-        s = cls(bin=m, pos=pos) if m else cls()
+        if case.get('made') and mutable:
+            s = util.mk_via(cls, m, case['made'])       # the stream came to hold its bits in another way; its position is then set
+            s.pos = pos
+        else:
+            s = cls(bin=m, pos=pos) if m else cls()
         if s.pos != pos:
             ctx.mismatch('C06|ctor|pos-keyword|pos', case, f'{s.pos} != {pos}')
         i = 0
@@ -521,6 +525,8 @@ def run(ctx):
             m = m[:L]
         pos = ctx.rng.choice([0, 0, L, ctx.rng.randint(0, L), min(8, L), max(L - 1, 0)])
         case = {'cls': ctx.rng.choice(util.STREAMS), 'init': m, 'pos': pos, 'steps': []}
+        if case['cls'] == 'BitStream' and ctx.rng.random() < 0.3:
+            case['made'] = ctx.rng.choice(util.MADE_ROUTES)
         ns = ctx.rng.randint(6, 12) if ctx.quick else ctx.rng.randint(6, 40)
         ctx.run_case(lambda c, k: episode(c, k, ns), case)
         if i % 999 == 0:
